@@ -39,15 +39,16 @@ from fractions import Fraction
 from . import gen
 from .lib import CoqFailure, coq_Z, coq_list, coq_nat
 
-# CALIBRATION (unchanged tree f15b9ec+fixes, 2026-09-22, `python -m harness.c10 calibrate`, seeds 0-3):
-#   ratio residual/conv over 2-D (Nmax 4) and 3-D (Nmax 2,3) cases: median 0.05, 90% 0.45, max 1.3   -> RES_FACTOR = 20 x median
-#   rounded up to cover 4 x the largest ratio seen:
+# CALIBRATION (unchanged tree f15b9ec + fix commits, 2026-09-22, `python -m harness.c10 calibrate`, 4 seeds, 122 cases):
+#   residual/conv over 2-D (Nmax 4) and 3-D (Nmax 2, 3) cases: median 0.054, 90% 0.51, max 1.23.
+#   20 x median = 1.1 would still alarm on ~3% of correct cases (heavy tail), so the factor is 5 x the largest ratio seen:
 RES_FACTOR = 6.0
-#   3-D far field |G/G_cont - 1| (|x|/l)^2 with l = V^(1/3): median 0.12, max 1.9 -> K_CAP = 20 x median, at least 2 x max
-K_CAP = 4.0
-#   swap / group / scaling pairs: enforced by construction in __call__ (explicit group average, maxrate normalisation);
-#   measured differences <= 1e-13 relative to max|G|; tolerance = quadrature-independent rounding level
-PAIR_RTOL = 1e-10
+#   3-D far field |G/G_cont - 1| (|x|/l)^2, l = V^(1/3), at a quarter of the k-mesh period (129 points):
+#   median 0.146, 90% 0.63, max 1.71  ->  K_CAP = 20 x median (= 1.75 x max)
+K_CAP = 3.0
+#   swap / space-group / scaling pairs (2928 pairs): enforced by construction in __call__ (explicit group average, maxrate
+#   normalisation), independent of the quadrature: median 0, max 8.6e-15 relative to max|G|  ->  100 x max
+PAIR_RTOL = 1e-12
 ABS_FLOOR = 1e-6
 
 
@@ -294,7 +295,9 @@ def run(ck):
         try:
             ev = evaluate(case, rng, nrand=ck.n(6, 12), npairs=ck.n(8, 16))
         except (ArithmeticError, ValueError, IndexError, ZeroDivisionError, np.linalg.LinAlgError) as e:
-            ck.violation("GFCrystalcalc raised %r" % (e,), rep, key="c10-exception"); continue
+            ck.case(key=(case.label, round(case.cut, 5), case.data[0], case.data[3], Nmax), nontrivial=True, kind="exception:%dD-N%d" % (case.crys.dim, case.N))
+            ck.violation("GFCrystalcalc raised %r for a valid crystal / network / rates (point group order %d)" % (e, len(case.crys.G)), rep,
+                         key="c10-complex-ift-exception" if "complex IFT" in str(e) else "c10-exception"); continue
         tol = max(ABS_FLOOR, RES_FACTOR * ev["conv"])
         worst = float(np.abs(ev["res"]).max())
         kind = "%dD-N%d-Nmax%d-nd%d-%s" % (case.crys.dim, case.N, Nmax, ev["g"].Ndiff, case.label.split("-")[0])
